@@ -48,7 +48,7 @@ def run(prop, only=None):
             if r.returncode != 0:
                 results.append((name, want, "patch-does-not-apply", False))
                 continue
-            env = dict(os.environ, KOLIBRIE_REPO=scratch, VERIF_FACTS_TAG="selftest")
+            env = dict(os.environ, KOLIBRIE_REPO=scratch, VERIF_FACTS_TAG=os.environ.get("SELFTEST_TAG", "selftest"))
             c = subprocess.run([os.path.join(VERIF, "check"), prop, "--no-evidence", "--tier", "quick"], env=env, capture_output=True, text=True)
             got = c.returncode
             ok = (got == want)
